@@ -1,4 +1,6 @@
-import QP.Proofs.C07Main
+import QP.Proofs.C07Induction
+import QP.Proofs.C07Def
+import QP.Proofs.C07DefEnds
 import QP.Proofs.C07Pad
 import QP.Proofs.C07Witness
 /-!
@@ -20,12 +22,34 @@ FULL STATEMENT (the goal; **not** a theorem of the code as it is):
 It is false on the pinned code: `final_counterexample` (PF-09, `ForLoopPulseTemplate.final_values` index),
 `initial_counterexample_jump` (PF-C07-2), `initial_counterexample_empty_part` (PF-C07-3); a table that ends in a
 `hold` segment *specifies* its last entry as final value (`final_table_hold_specified`), which is not the value the
-voltage ends on.  What is proved (`*_partial`): the statement for the constructor subset `supported` (constant,
-table — all three interpolations, padding to the common duration —, function affine in `t`, sequence, repetition,
-iteration — every range shape —, mapping with renamed / dropped channels, time reversal (which implements the
-integral only)), with the initial / final clause under the hypothesis that the path of the closed form runs through none
-of the documented classes (`pathTags … = .ok []`).  Point pulses, parallel channels, atomic multi channel and
-arithmetic templates are covered by the correspondence run only.
+voltage ends on.
+
+What is proved (`*_partial`): the statement for **all thirteen constructors** (constant, table — all three
+interpolations, padding to the common duration —, point — scalar entries broadcast to all channels —, function affine
+in `t`, sequence, repetition, iteration — every range shape —, mapping with renamed / dropped channels, parallel
+channel — overwritten and added channels —, atomic multi channel, arithmetic with a scalar operand — all four
+operators, both operand orders, uniform and per-channel scalars —, atomic arithmetic of two templates, time reversal
+(which implements the integral only)) and all trees over them, under the hypotheses
+
+* `supported pt` — what the constructors of the real classes enforce (distinct `dict` keys, all parts of a sequence
+  define the same channels, the parts of an atomic multi channel template define disjoint channels, total and
+  injective channel mappings, per-channel scalars name channels of the operand) plus the two limits of the *model* of
+  the closed forms: function templates affine in `t` and scalar operands independent of `t` (otherwise
+  `integralOf = .error .unsupported`);
+* `regular pt σ` — durations, entry times, counts non-negative, times non-decreasing, counts / range parameters
+  exact integers, equal durations of the parts of an atomic multi channel / atomic arithmetic template;
+* `keeps pt cm` — no atomic leaf loses all its channels through the channel mapping (such a leaf vanishes from the
+  pulse together with its duration; same exclusion as C04);
+* for the initial / final clause: the path of the closed form runs through none of the documented classes
+  (`pathTags … = .ok []`: PF-09, PF-C07-2, PF-C07-3, table ending in `hold`).
+
+By-products, for all thirteen constructors: `duration_correct` (the duration expression evaluates to the duration of
+the denoted pulse), `pulse_well_formed` (every channel of a denoted pulse consists of pieces of positive length that
+add up to the duration), `channel_played` (a kept channel is played unless the pulse has duration 0).
+Definedness, for all thirteen constructors: under the extra hypothesis `positive` (every part is actually played)
+the duration, the integral and -- where the class provides them -- the initial / final values evaluate
+(`duration_defined_partial`, `integral_defined_partial`, `ends_defined_partial`), so that no hypothesis about the
+closed form is left; without `positive` the success of `denote` does not imply it (skipped parts are never evaluated).
 The range arithmetic (`range_*`, `final_index_eq_last_iff`) and `pad_holds_final` are proved in full.
 -/
 namespace QP.Props.C07
@@ -82,41 +106,42 @@ theorem final_index_counterexample_neg : finalIndex 5 0 (-2) = 3 ∧ (pyRange 5 
     omega
   simp [finalIndex, h]
 
-/-! ## The closed forms agree with the denoted pulse (supported fragment) -/
+/-! ## The closed forms agree with the denoted pulse (all thirteen constructors) -/
 
-/-- `integral_correct`, proved for the constructor subset `supported` (all trees over it, all ranges): whenever
+/-- `integral_correct`, proved for all trees over all thirteen constructors (all ranges) under `supported`, `regular`,
+`keeps`: whenever
 `pt.integral[c]` evaluates at the parameters, its value is the integral of the denoted voltage of the channel -/
 theorem integral_correct_partial {pt : PT} {σ : Scope} {mm cm} {P : Pulse} {c o : Chan} {r : Rat}
     (hs : supported pt = true) (hreg : regular pt σ = true) (hden : denote pt σ mm cm = .ok P)
     (hinj : InjOn cm pt.definedChannels) (hc : c ∈ pt.definedChannels) (hcm : cm.lookup c = some (some o))
-    (hr : integralOf pt σ c = .ok r) : r = plIntegral (pulseVal P o) :=
-  (claim pt hs σ mm cm P c o hden hreg hinj hc hcm).1 r hr
+    (hkeep : keeps pt cm = true) (hr : integralOf pt σ c = .ok r) : r = plIntegral (pulseVal P o) :=
+  (claim pt hs σ mm cm P c o hden hreg hinj hc hcm hkeep).1 r hr
 
-/-- `initial_correct`, proved for `supported` outside the documented classes: `pt.initial_values[c]` is the value
+/-- `initial_correct`, proved for all thirteen constructors outside the documented classes: `pt.initial_values[c]` is the value
 the first played piece starts with (the voltage at time zero) -/
 theorem initial_correct_partial {pt : PT} {σ : Scope} {mm cm} {P : Pulse} {c o : Chan} {v v' : Rat}
     (hs : supported pt = true) (hreg : regular pt σ = true) (hden : denote pt σ mm cm = .ok P)
     (hinj : InjOn cm pt.definedChannels) (hc : c ∈ pt.definedChannels) (hcm : cm.lookup c = some (some o))
-    (hclass : pathTags .first pt σ mm cm c = .ok [])
+    (hkeep : keeps pt cm = true) (hclass : pathTags .first pt σ mm cm c = .ok [])
     (hv : plEnd .first (pulseVal P o) = some v) (hv' : initialOf pt σ c = .ok v') : v' = v :=
-  (claim pt hs σ mm cm P c o hden hreg hinj hc hcm).2 .first hclass v v' hv hv'
+  (claim pt hs σ mm cm P c o hden hreg hinj hc hcm hkeep).2 .first hclass v v' hv hv'
 
-/-- `final_correct`, proved for `supported` outside the documented classes (in particular outside PF-09:
+/-- `final_correct`, proved for all thirteen constructors outside the documented classes (in particular outside PF-09:
 `pathTags .last` contains `pf09` exactly when the index used by the code is not the last index of the range):
 `pt.final_values[c]` is the end value of the last played piece -/
 theorem final_correct_partial {pt : PT} {σ : Scope} {mm cm} {P : Pulse} {c o : Chan} {v v' : Rat}
     (hs : supported pt = true) (hreg : regular pt σ = true) (hden : denote pt σ mm cm = .ok P)
     (hinj : InjOn cm pt.definedChannels) (hc : c ∈ pt.definedChannels) (hcm : cm.lookup c = some (some o))
-    (hclass : pathTags .last pt σ mm cm c = .ok [])
+    (hkeep : keeps pt cm = true) (hclass : pathTags .last pt σ mm cm c = .ok [])
     (hv : plEnd .last (pulseVal P o) = some v) (hv' : finalOf pt σ c = .ok v') : v' = v :=
-  (claim pt hs σ mm cm P c o hden hreg hinj hc hcm).2 .last hclass v v' hv hv'
+  (claim pt hs σ mm cm P c o hden hreg hinj hc hcm hkeep).2 .last hclass v v' hv hv'
 
 /-- the three clauses for `create_program` without user mappings (identity channel mapping: the injectivity and
 lookup hypotheses are discharged) -/
 theorem quantities_correct_top_partial {pt : PT} {params : List (String × Rat)} {ctx : Ctx} {P : Pulse} {c : Chan}
     (hs : supported pt = true) (hctx : topCtx pt params none [] [] = .ok ctx)
     (hreg : regular pt (.dict params) = true) (hden : denote pt ctx.scope ctx.mm ctx.cm = .ok P)
-    (hc : c ∈ pt.definedChannels) :
+    (hc : c ∈ pt.definedChannels) (hkeep : keeps pt ctx.cm = true) :
     (∀ r, integralOf pt (.dict params) c = .ok r → r = plIntegral (pulseVal P c)) ∧
     (∀ e, pathTags e pt (.dict params) ctx.mm ctx.cm c = .ok [] → ∀ v v',
       plEnd e (pulseVal P c) = some v → endOf e pt (.dict params) c = .ok v' → v' = v) := by
@@ -124,7 +149,90 @@ theorem quantities_correct_top_partial {pt : PT} {params : List (String × Rat)}
   rw [hsc] at hden
   have hinj : InjOn ctx.cm pt.definedChannels := by rw [hcm]; exact injOn_identity _
   have hl : ctx.cm.lookup c = some (some c) := by rw [hcm]; exact lookup_identity _ c hc
-  exact claim pt hs (.dict params) ctx.mm ctx.cm P c c hden hreg hinj hc hl
+  exact claim pt hs (.dict params) ctx.mm ctx.cm P c c hden hreg hinj hc hl hkeep
+
+/-- `duration_correct` (all thirteen constructors): the duration expression of a template evaluates to the duration of
+the pulse it denotes -/
+theorem duration_correct {pt : PT} {σ : Scope} {mm cm} {P : Pulse} {D : Rat}
+    (hs : supported pt = true) (hreg : regular pt σ = true) (hden : denote pt σ mm cm = .ok P)
+    (hkeep : keeps pt cm = true) (hD : templateDuration pt σ = .ok D) : D = P.dur :=
+  (invClaim pt hs σ mm cm P hden hreg).2.2 hkeep D hD
+
+/-- `pulse_well_formed` (all thirteen constructors): a pulse without channels has duration 0, durations are
+non-negative, and every channel consists of pieces of positive length whose lengths add up to the duration; every
+channel of the pulse is the image of a defined channel under the channel mapping -/
+theorem pulse_well_formed {pt : PT} {σ : Scope} {mm cm} {P : Pulse}
+    (hs : supported pt = true) (hreg : regular pt σ = true) (hden : denote pt σ mm cm = .ok P) :
+    (P.isEmpty = true → P.dur = 0) ∧ 0 ≤ P.dur ∧
+    (∀ x ∈ P.chans, (∀ s ∈ x.2, 0 < s.len) ∧ PL.dur x.2 = P.dur) ∧
+    (∀ o ∈ P.chanNames, ∃ c ∈ pt.definedChannels, cm.lookup c = some (some o)) := by
+  obtain ⟨h1, h2, _⟩ := invClaim pt hs σ mm cm P hden hreg
+  exact ⟨h1.empty_dur, h1.dur_nonneg, h1.seg, h2⟩
+
+/-- `channel_played` (all thirteen constructors): a defined channel that the channel mapping keeps is a channel of the
+denoted pulse, unless the pulse has duration 0 -/
+theorem channel_played {pt : PT} {σ : Scope} {mm cm} {P : Pulse} {c o : Chan}
+    (hs : supported pt = true) (hreg : regular pt σ = true) (hden : denote pt σ mm cm = .ok P)
+    (hc : c ∈ pt.definedChannels) (hcm : cm.lookup c = some (some o)) (hkeep : keeps pt cm = true) :
+    o ∈ P.chanNames ∨ P.dur = 0 :=
+  presClaim pt hs σ mm cm P hden hreg hkeep c o hc hcm
+
+/-! ## Definedness: the closed forms evaluate
+
+The theorems above say "whenever the closed form evaluates".  `create_program` skips parts that play nothing (duration
+0, count 0, empty range) without looking at the expressions in there, so the success of `denote` alone does not imply
+that the closed forms evaluate; it does if every part is actually played (`positive`). -/
+
+/-- `duration_defined` (all thirteen constructors): if every part of the template is played (`positive`), the duration
+expression evaluates -- to the (positive) duration of the denoted pulse -/
+theorem duration_defined_partial {pt : PT} {σ : Scope} {mm cm} {P : Pulse}
+    (hs : supported pt = true) (hreg : regular pt σ = true) (hpos : positive pt σ = true)
+    (hden : denote pt σ mm cm = .ok P) (hkeep : keeps pt cm = true) :
+    ∃ D, templateDuration pt σ = .ok D ∧ 0 < D ∧ D = P.dur := by
+  obtain ⟨⟨D, hD, hD0⟩, _⟩ := defClaim pt hs σ mm cm P hden hreg hpos hkeep
+  exact ⟨D, hD, hD0, duration_correct hs hreg hden hkeep hD⟩
+
+/-- `integral_defined` (all thirteen constructors): if every part of the template is played (`positive`), then
+`pt.integral[c]` evaluates for every kept channel -- to the integral of the denoted voltage.  No hypothesis about the
+closed form is left. -/
+theorem integral_defined_partial {pt : PT} {σ : Scope} {mm cm} {P : Pulse} {c o : Chan}
+    (hs : supported pt = true) (hreg : regular pt σ = true) (hpos : positive pt σ = true)
+    (hden : denote pt σ mm cm = .ok P)
+    (hinj : InjOn cm pt.definedChannels) (hc : c ∈ pt.definedChannels) (hcm : cm.lookup c = some (some o))
+    (hkeep : keeps pt cm = true) : ∃ r, integralOf pt σ c = .ok r ∧ r = plIntegral (pulseVal P o) := by
+  obtain ⟨_, h⟩ := defClaim pt hs σ mm cm P hden hreg hpos hkeep
+  obtain ⟨r, hr⟩ := h hinj c o hc hcm
+  exact ⟨r, hr, integral_correct_partial hs hreg hden hinj hc hcm hkeep hr⟩
+
+/-- `initial_defined` / `final_defined` (all thirteen constructors; `provides` excludes time reversal, which
+implements neither): if every part of the template is played (`positive`) and the path of the closed form runs
+through none of the documented classes, then `pt.initial_values[c]` (`e = .first`) / `pt.final_values[c]`
+(`e = .last`) evaluates, the kept channel is played, and the value is the one the played voltage starts / ends with -/
+theorem ends_defined_partial {e : End} {pt : PT} {σ : Scope} {mm cm} {P : Pulse} {c o : Chan}
+    (hs : supported pt = true) (hreg : regular pt σ = true) (hpos : positive pt σ = true)
+    (hden : denote pt σ mm cm = .ok P)
+    (hinj : InjOn cm pt.definedChannels) (hc : c ∈ pt.definedChannels) (hcm : cm.lookup c = some (some o))
+    (hkeep : keeps pt cm = true) (hprov : provides e pt = true) (hclass : pathTags e pt σ mm cm c = .ok []) :
+    ∃ v, endOf e pt σ c = .ok v ∧ plEnd e (pulseVal P o) = some v := by
+  obtain ⟨D, _, hD0, hDP⟩ := duration_defined_partial hs hreg hpos hden hkeep
+  obtain ⟨_, _, hseg, _⟩ := pulse_well_formed hs hreg hden
+  have hmem : o ∈ P.chanNames := by
+    rcases channel_played hs hreg hden hc hcm hkeep with h | h
+    · exact h
+    · rw [hDP, h] at hD0; exact absurd hD0 (by grind)
+  obtain ⟨pl, hpl⟩ := lookup_isSome_of_mem_keys P.chans o hmem
+  have hdur := (hseg (o, pl) (mem_of_lookup P.chans o pl hpl)).2
+  have hne : pl ≠ [] := by
+    intro h0
+    rw [h0] at hdur
+    simp only [PL.dur] at hdur
+    rw [hDP, ← hdur] at hD0
+    exact absurd hD0 (by simp)
+  have hval : pulseVal P o = pl := by simp [pulseVal, hpl]
+  obtain ⟨w, hw⟩ := plEnd_some_of_ne_nil e hne
+  obtain ⟨v, hv⟩ := endDefClaim e pt hs σ mm cm P hden hreg hpos hkeep hprov hinj c o hc hcm
+  have := (claim pt hs σ mm cm P c o hden hreg hinj hc hcm hkeep).2 e hclass w v (by rw [hval]; exact hw) hv
+  exact ⟨v, hv, by rw [hval, hw, this]⟩
 
 /-- the integral of a loop whose range is empty is 0, for every body (PF-09b repaired; the unrepaired code
 returned the body integral at the start index) -/
@@ -208,7 +316,7 @@ theorem pad_holds_final {pt : PT} {σ : Scope} {mm cm} {newDur : Rat} {padded : 
   intro c o v hc hcm hv
   rw [happ o, hold hnd hinj c o v hc hcm hv]
 
-/-- consequently, on the supported fragment and outside the documented classes, padding holds exactly the voltage
+/-- consequently, for all thirteen constructors and outside the documented classes, padding holds exactly the voltage
 the unpadded pulse ends on -/
 theorem pad_holds_last_partial {pt : PT} {σ : Scope} {mm cm} {newDur : Rat} {padded : PT} {P P' : Pulse}
     {c o : Chan} {v vl : Rat}
@@ -216,13 +324,13 @@ theorem pad_holds_last_partial {pt : PT} {σ : Scope} {mm cm} {newDur : Rat} {pa
     (hpad : padTo pt σ newDur = .ok padded) (hden : denote pt σ mm cm = .ok P)
     (hden' : denote padded σ mm cm = .ok P')
     (hnd : hasDup pt.definedChannels = false) (hinj : InjOn cm pt.definedChannels)
-    (hc : c ∈ pt.definedChannels) (hcm : cm.lookup c = some (some o))
+    (hc : c ∈ pt.definedChannels) (hcm : cm.lookup c = some (some o)) (hkeep : keeps pt cm = true)
     (hclass : pathTags .last pt σ mm cm c = .ok [])
     (hv : finalOf pt σ c = .ok v) (hl : plEnd .last (pulseVal P o) = some vl) :
     ∃ D, templateDuration pt σ = .ok D ∧
       pulseVal P' o = pulseVal P o ++ (if newDur - D > 0 then [{ len := newDur - D, v0 := vl, v1 := vl }] else []) := by
   obtain ⟨D, hD, h⟩ := pad_holds_final hpad hden hden' hnd hinj
-  have := final_correct_partial hs hreg hden hinj hc hcm hclass hl hv
+  have := final_correct_partial hs hreg hden hinj hc hcm hkeep hclass hl hv
   subst this
   exact ⟨D, hD, h c o v hc hcm hv⟩
 
@@ -231,5 +339,22 @@ theorem pad_holds_last_partial {pt : PT} {σ : Scope} {mm cm} {newDur : Rat} {pa
 example : supported loopWitness = true := by decide
 example : supported emptyPartWitness = true := by decide
 example : supported jumpWitness = true := by decide
+example : positive newKindsWitness (.dict []) = true := by decide
+example : provides .first newKindsWitness = true ∧ provides .last newKindsWitness = true := by decide
+example : positive loopWitness (.dict [("v", 1/2)]) = true := by decide
+
+/-- the five constructors added in round 2 in one tree (`newKindsWitness`): all hypotheses of the `_partial` theorems
+hold, the template denotes a pulse and the closed forms evaluate -- to the values of the pulse -/
+theorem new_constructors_nonvacuous :
+    supported newKindsWitness = true ∧ regular newKindsWitness (.dict []) = true ∧
+    keeps newKindsWitness newKindsCm = true ∧
+    (match denote newKindsWitness (.dict []) [] newKindsCm with
+     | .ok P => plIntegral (pulseVal P "A") == 18 && plEnd .last (pulseVal P "A") == some 12 && P.dur == 2
+     | .error _ => false) = true ∧
+    (match integralOf newKindsWitness (.dict []) "A", finalOf newKindsWitness (.dict []) "A",
+        pathTags .last newKindsWitness (.dict []) [] newKindsCm "A" with
+     | .ok i, .ok f, .ok tags => i == 18 && f == 12 && tags.isEmpty
+     | _, _, _ => false) = true :=
+  newKinds_eval
 
 end QP.Props.C07
